@@ -638,7 +638,11 @@ class ExcelModel:
         f_nodes, d_nodes, dmap = dsp.function_nodes, dsp.data_nodes, dsp.dmap
         skip_nodes = {
             k for k, node in f_nodes.items()
-            if isinstance(node['function'], InvRangesAssembler)
+            if isinstance(node['function'], InvRangesAssembler) or (
+                # Inverse link of a defined name (see `inverse_references`).
+                node['function'] is sh.bypass and set(node['outputs']) <=
+                d_nodes.get(node['inputs'][0], {}).get('inv-data', set())
+            )
         }
 
         cycles = list(simple_cycles(dmap.succ, skip_nodes=skip_nodes))
